@@ -660,6 +660,9 @@ def check_anchor_family(case: dict) -> None:
         if (files[j], a) in seen:
             raise ValueError(f"anchor name {a!r} declared twice in one file: the reference is ambiguous")
         seen.add((files[j], a))
+    for _, j, k in case["edges"]:
+        if k == "deepanchor" and (files[j], f"ancsub{j}") in seen:
+            raise ValueError(f"anchor name 'ancsub{j}' is taken by the nested object of definition {j}")
     if any(i not in case["root_refs"] for i in case.get("root_anchors") or []):
         raise ValueError("root_anchors must be a subset of root_refs")
 
@@ -741,14 +744,15 @@ def chain_info(case: dict) -> tuple[set, set]:
 
 
 def build_e2e_doc(case: dict) -> tuple[typing.Any, str]:
-    """case = {container, keys (document order), edges [[i, j, 'ref'|'array'|'deep'|'anchor']], root_refs [i…],
+    """case = {container, keys (document order), edges [[i, j, 'ref'|'array'|'deep'|'anchor'|'chain'|'deepanchor']], root_refs [i…],
     files (optional: 0 = main.json, 1 = other.json per definition),
     containers (optional: container per definition, for documents that have `definitions` AND `$defs`),
     anchors (optional: anchor name per definition, null = `anc{j}`; see "the family of anchor names"),
     root_anchors (optional: those of root_refs that the root object writes as `$ref: "#<anchor>"`)}.
     Every definition i carries the marker member `mk{i}x`; the root object carries `mkrootx`; a definition
     that is the target of a 'deep' edge has a nested object `sub{j}` with marker `mkd{j}x`; the target of an
-    'anchor' edge (same file) or of a root anchor reference has `$id: "#<anchor name>"`.
+    'anchor' edge (same file) or of a root anchor reference has `$id: "#<anchor name>"`; the target of a
+    'deepanchor' edge has the nested object `sub{j}` with `$id: "#ancsub{j}"`, referenced as `#ancsub{j}` (member `n{i}to{j}`).
     Returns (document or {file name: document}, input file type)."""
     check_anchor_family(case)
     keys = case["keys"]
@@ -769,6 +773,13 @@ def build_e2e_doc(case: dict) -> tuple[typing.Any, str]:
         elif kind == "deep":
             schema(j)["properties"].setdefault(f"sub{j}", {"type": "object", "properties": {f"mkd{j}x": {"type": "integer"}}})
             props[f"d{i}to{j}"] = {"$ref": ref_to(case, i, j, "deep")}
+        elif kind == "deepanchor":
+            # the nested object `sub{j}` of definition j declares an `$id` of its own and is referenced through it
+            if files[i] != files[j]:
+                raise ValueError("a 'deepanchor' edge is same-file only")
+            sub = schema(j)["properties"].setdefault(f"sub{j}", {"type": "object", "properties": {f"mkd{j}x": {"type": "integer"}}})
+            sub["$id"] = f"#ancsub{j}"
+            props[f"n{i}to{j}"] = {"$ref": f"#ancsub{j}"}
         elif kind == "chain":
             # objects outside every definitions container (`#/extras/s{k}`), reachable only through
             # references: s{i} points at s{j}, so s{j} is discovered while the reserved-reference
@@ -929,9 +940,9 @@ def e2e_oracle(ck: Check, camp, case: dict) -> bool:
     if shapes:
         base["anchor_shapes"] = shapes
 
-    def fail(mech: str, observed: str) -> bool:
+    def fail(mech: str, observed: str, **extra) -> bool:
         camp.hit("fail:" + mech)
-        ck.fail({**base, "mechanism": mech}, case, observed)
+        ck.fail({**base, "mechanism": mech, **extra}, case, observed)
         return False
 
     if res.hang:
@@ -955,13 +966,13 @@ def e2e_oracle(ck: Check, camp, case: dict) -> bool:
     expected = n + (1 if ift == "jsonschema" else 0)
     if len(set(owner.values())) != n:
         return fail("merged_or_duplicated", f"two definitions share a class: {owner}")
-    subs = {j for _, j, kind in case["edges"] if kind == "deep"}
+    subs = {j for _, j, kind in case["edges"] if kind in ("deep", "deepanchor")}
     extras = {k for i, j, kind in case["edges"] if kind == "chain" for k in (i, j)}
     # a nested object referenced by pointer may be emitted twice (inline + by reference): not a named schema
     if not expected + len(subs) + len(extras) <= len(table) <= expected + 2 * len(subs) + len(extras):
         return fail("extra_class", f"{len(table)} top-level classes for {n} definitions (+{len(subs)} nested, +{len(extras)} outside the container): {names}")
     members = dict(table)
-    checks = [(owner[i], (f"a{i}to{j}" if kind == "array" else f"r{i}to{j}"), j) for i, j, kind in case["edges"] if kind not in ("deep", "chain")]
+    checks = [(owner[i], (f"a{i}to{j}" if kind == "array" else f"r{i}to{j}"), j) for i, j, kind in case["edges"] if kind not in ("deep", "chain", "deepanchor")]
     checks = list(dict.fromkeys(checks))
     for i, j, kind in case["edges"]:
         if kind == "deep":
@@ -1013,6 +1024,16 @@ def e2e_oracle(ck: Check, camp, case: dict) -> bool:
                     return fail("ref_mislanded", f"{cls}.{member} resolves to {got}, expected class {owner[j]} of definition {keys[j]!r}")
         finally:
             e2e.unload(mod)
+    # LAST (any other failure of the document is reported first): a reference to the `$id` of a NESTED subschema
+    # must name the class of that nested object
+    for i, j, kind in case["edges"]:
+        if kind == "deepanchor":
+            ann = members[owner[i]].get(f"n{i}to{j}")
+            leaves = [x for x in (ann_leaves(ann) if ann is not None else []) if x != "None" and x not in WRAPPERS]
+            if len(leaves) != 1 or f"mkd{j}x" not in members.get(leaves[0], {}):
+                return fail("ref_mislanded", f"{owner[i]}.n{i}to{j}: {ast.unparse(ann) if ann is not None else None} should name the class of the nested object "
+                            f"#/{cont_of(case, j)}/{keys[j]}/properties/sub{j} (member mkd{j}x), which declares $id '#ancsub{j}'",
+                            anchor_target="nested_subschema", lands_on="enclosing_definition" if leaves == [owner[j]] else "other")
     camp.distinct.add(json.dumps(case, sort_keys=True))
     if len(camp.samples) < 2:
         camp.samples.append(case)
@@ -1032,6 +1053,9 @@ def gen_e2e_case(rng: Rng) -> dict:
         same_file_refs = [e for e in case["edges"] if e[2] == "ref" and files[e[0]] == files[e[1]]]
         if not anchored_defs(case) and same_file_refs and arng.chance(1, 4):
             arng.choice(same_file_refs)[2] = "anchor"
+        if "files" not in case and arng.chance(1, 12):
+            # `$id` on a nested subschema (known finding C06-K4 on the unchanged tree; checked last by the oracle)
+            case["edges"].append([arng.below(n), arng.below(n), "deepanchor"])
         if anchored_defs(case) and arng.chance(5, 6):
             names = gen_anchor_names(arng, case["keys"])
             case["anchors"] = [names[j] if j in anchored_defs(case) else None for j in range(n)]
@@ -1229,12 +1253,12 @@ def campaign_worklist(ck: Check, n: int) -> None:
     camp = ck.campaign("worklist model (prelude + loop, fuel |pointers|+1) vs JsonSchemaParser.parse_raw: reserved set and loaded pointers")
     t0 = time.time()
     rng = ck.rng.fork("worklist")
-    cases = [c for c in E2E_CORPUS if "files" not in c and c["container"] != "components/schemas" and all(k != "deep" for _, _, k in c["edges"])]
+    cases = [c for c in E2E_CORPUS if "files" not in c and c["container"] != "components/schemas" and all(k not in ("deep", "deepanchor") for _, _, k in c["edges"])]
     while len(cases) < n:
         c = gen_e2e_case(rng)
         if "files" in c or c["container"] == "components/schemas":
             continue
-        c["edges"] = [[i, j, "chain" if k == "deep" else k] for i, j, k in c["edges"]]
+        c["edges"] = [[i, j, "chain" if k in ("deep", "deepanchor") else k] for i, j, k in c["edges"]]
         cases.append(c)
     reqs = []
     for c in cases:
